@@ -66,7 +66,7 @@ type C16Scenario struct {
 
 type C16Swamp struct {
 	Idle  int       `json:"idle"` // close-after-idle seconds: 0 | 1 | 600
-	WI    int       `json:"wi"`   // write interval seconds: 0 | 1
+	WI    int       `json:"wi"`   // write interval seconds: 0 | 1; -1 = in-memory swamp (lastdel shape only)
 	Steps []C16Step `json:"steps"`
 }
 
@@ -89,7 +89,8 @@ type C16Op struct {
 }
 
 type C16Event struct {
-	Kind   string `json:"kind"` // close | delall | shiftall | destroy | delkey (Delete of shared key k<Key>)
+	Kind   string `json:"kind"` // close | delall | shiftall | destroy | delkey (Delete of shared key k<Key>) | delname / shiftname (Delete / ShiftByKeys of key Name)
+	Name   string `json:"name,omitempty"`
 	Key    int    `json:"key,omitempty"`
 	AtUs   int    `json:"at_us,omitempty"`
 	LateUs int    `json:"late_us,omitempty"` // close: time between the listener-like check "no active vigil" and the Close() call
@@ -103,7 +104,7 @@ type C16Event struct {
 var c16Idles = []int{0, 1, 600}
 
 func c16Patterns() []rig.Pattern {
-	var p []rig.Pattern
+	p := []rig.Pattern{{Pattern: "c16mem/*/*", InMemory: true, CloseAfterIdleSec: 600}}
 	for _, idle := range c16Idles {
 		for _, wi := range []int{0, 1} {
 			p = append(p, rig.Pattern{Pattern: fmt.Sprintf("c16i%dw%d/*/*", idle, wi), CloseAfterIdleSec: int64(idle), WriteIntervalSec: int64(wi)})
@@ -583,6 +584,10 @@ func (s *c16Sw) event(ev C16Event) {
 		s.destroy()
 	case "closeover":
 		s.closeover(ev.AtUs>>8, ev.AtUs&1 == 1, ev.LateUs)
+	case "delname":
+		s.del(ev.Name)
+	case "shiftname":
+		s.shift(ev.Name)
 	case "delkey":
 		k := ev.Key
 		if k < 0 {
@@ -605,7 +610,9 @@ func (s *c16Sw) nextVal(tag string) string {
 
 // burst runs the writers (and, in free mode, the lifecycle events) of one step concurrently. Returns a hang description or "".
 func (s *c16Sw) burst(bi int, st C16Step) string {
-	raw := st.Kind == "closeover" // no pin Set in front: every Set is held by the plan until the close decision
+	// raw steps run without the pin Set in front: closeover (every Set is held by the plan until the close decision) and the
+	// lastdel shape (the swamp must hold exactly one record)
+	raw := st.Kind == "closeover" || st.Kind == "lastdel"
 	if !raw {
 		s.quiesceIfStale()
 	}
@@ -668,7 +675,7 @@ func (s *c16Sw) burst(bi int, st C16Step) string {
 	}
 	{
 		for _, ev := range st.Ev {
-			if !s.free() && !(ev.Kind == "close" && s.closeSafe()) && !(raw && ev.Kind == "closeover") {
+			if !s.free() && !(ev.Kind == "close" && s.closeSafe()) && !(raw && ev.Kind == "closeover") && !(st.Kind == "lastdel" && (ev.Kind == "delname" || ev.Kind == "shiftname")) {
 				continue // restricted mode: no lifecycle event overlaps requests, except the closeover shape
 			}
 			if ev.Kind == "closeover" {
@@ -747,7 +754,7 @@ func (s *c16Sw) run(sw C16Swamp) string {
 				return h
 			}
 			bi++
-		case "closeover":
+		case "closeover", "lastdel":
 			if h := s.burst(bi, st); h != "" {
 				return h
 			}
@@ -1020,6 +1027,9 @@ func runC16(s C16Scenario) pbt.Outcome {
 	var sws []*c16Sw
 	for i, sc := range s.Swamps {
 		n := fmt.Sprintf("c16i%dw%d/r%d/s%d", sc.Idle, sc.WI, cs, i)
+		if sc.WI < 0 { // in-memory swamp (lastdel shape only): judged without any close
+			n = fmt.Sprintf("c16mem/r%d/s%d", cs, i)
+		}
 		sws = append(sws, &c16Sw{e: e, name: n, isl: rig.Island(n), idle: sc.Idle, wi: sc.WI, open: !s.Free, classes: map[string]bool{}})
 	}
 	defer func() {
@@ -1078,7 +1088,7 @@ func runC16(s C16Scenario) pbt.Outcome {
 	} else {
 		for _, sw := range sws {
 			sw.quiesceIfStale()
-			if e.r.IsOpen(sw.name) {
+			if e.r.IsOpen(sw.name) && sw.wi >= 0 {
 				sw.injectClose()
 			}
 		}
@@ -1114,6 +1124,11 @@ func runC16(s C16Scenario) pbt.Outcome {
 	}
 	if len(rep.Fired) > 0 {
 		classes["plan-fired"] = true
+	}
+	for _, f := range rep.Fired {
+		if f == c16SaveSite+"#2:pause" && len(s.Swamps) == 1 && len(s.Swamps[0].Steps) > 1 && s.Swamps[0].Steps[1].Kind == "lastdel" {
+			classes["lastdel-writer-held-with-guard"] = true
+		}
 	}
 	if rep.Hits["swamp:WaitForGracefulClose:select:3e8f84"] > 0 {
 		classes["request-waited-for-closing-swamp"] = true
@@ -1286,8 +1301,57 @@ func genC16Swamp(t *rapid.T, free, slow bool) C16Swamp {
 	return sw
 }
 
+const (
+	c16SaveSite     = "swamp:SaveFunction:atomic.StoreInt64:1cc3f1" // first statement of SaveFunction: the saver holds the record guard
+	c16GetVigilSite = "gateway:Get:BeginVigil:3b19eb"
+	c16DelGuardSite = "swamp:deleteHandler:StartTreasureGuard:ac9b2b"                 // a delete is about to queue for the record guard
+	c16ShiftGuard   = "swamp:CloneAndDeleteTreasuresByKeys:StartTreasureGuard:fa71ce" // same for ShiftByKeys
+)
+
+// genC16LastDel: the swamp holds exactly one record A. A writer of A (Set / IncrementInt64 / PatchTreasures) is held while it
+// owns A's guard; Delete(A) / ShiftByKeys([A]) queues behind it; meanwhile 1–3 other keys are created and acknowledged (and one
+// is read); only then the writer of A is released. The delete empties nothing: the swamp and the new records must survive.
+// (Different from the open finding auto-destroy-after-drained-insert: there the inserting request is still in flight when the
+// emptiness is decided; here every insert has RETURNED before the delete even obtains the guard.)
+func genC16LastDel(t *rapid.T) C16Scenario {
+	sw := C16Swamp{Idle: 600, WI: rapid.SampledFrom([]int{0, 1, 1, -1}).Draw(t, "wi")}
+	wkind := rapid.SampledFrom([]string{"set", "inc", "patch"}).Draw(t, "writerofA")
+	aKey := rapid.IntRange(0, 3).Draw(t, "akey")
+	aName := map[string]string{"set": fmt.Sprintf("k%d", aKey), "inc": "i0", "patch": "p0"}[wkind]
+	opA := C16Op{Kind: wkind, Key: aKey}
+	del := rapid.SampledFrom([]string{"delname", "delname", "shiftname"}).Draw(t, "delkind")
+	guardSite := c16DelGuardSite
+	if del == "shiftname" {
+		guardSite = c16ShiftGuard
+	}
+	var others []C16Op
+	for i := rapid.IntRange(1, 3).Draw(t, "nother"); i > 0; i-- {
+		others = append(others, C16Op{Kind: "set", Key: (aKey + i) % 4})
+	}
+	others = append(others, C16Op{Kind: "get", Key: (aKey + 1) % 4}) // its passage releases the writer of A
+	sw.Steps = []C16Step{
+		{Kind: "lastdel", W: []C16Writer{{Ops: []C16Op{opA}}}}, // creates A: first passage of SaveFunction
+		{Kind: "lastdel",
+			W: []C16Writer{
+				{Ops: []C16Op{opA}}, // writer 0 again = same key; second passage of SaveFunction: held with A's guard
+				{After: "site:" + guardSite, DelayUs: rapid.SampledFrom([]int{100, 300, 1000}).Draw(t, "parkus"), Ops: others},
+			},
+			Ev: []C16Event{{Kind: del, Name: aName, After: "paused"}}},
+	}
+	if rapid.Bool().Draw(t, "more") {
+		sw.Steps = append(sw.Steps, C16Step{Kind: "burst", W: genC16Writers(t, 3, 3, false)})
+	}
+	plan := append([]vsched.Action{{Site: c16SaveSite, Hit: 2, Kind: "pause", Until: "site:" + c16GetVigilSite, MaxWaitMs: 3000}}, genC16Plan(t, 3, false)...)
+	return C16Scenario{Mode: "fast", Free: false, Final: "close", Swamps: []C16Swamp{sw}, Plan: plan}
+}
+
 func genC16(mode string, free bool) func(t *rapid.T) C16Scenario {
 	return func(t *rapid.T) C16Scenario {
+		if mode == "fast" && rapid.IntRange(0, 9).Draw(t, "lastdel") == 0 {
+			s := genC16LastDel(t)
+			s.Free = free
+			return s
+		}
 		s := C16Scenario{Mode: mode, Free: free, Final: "close"}
 		if mode == "slow" {
 			n := rapid.IntRange(16, 32).Draw(t, "nswamps")
